@@ -8,8 +8,13 @@ import (
 	"encoding/hex"
 	"encoding/json"
 	"fmt"
+	"math"
 	"os"
 	"reflect"
+	"runtime"
+	"strconv"
+	"sync"
+	"time"
 
 	hio "github.com/hprose/hprose-golang/v3/io"
 	"hv/hvlib"
@@ -22,6 +27,107 @@ type ioCase struct {
 	Top   string          `json:"top"`   // "value" (default) or "ptr": Marshal(v) or Marshal(&v)
 	Modes []string        `json:"modes"` // subset of simple, ref
 	Dump  bool            `json:"dump,omitempty"`
+	// Sweep: exhaustive/strided sweep over float32 bit patterns through Marshal/Unmarshal
+	// {"from":a,"to":b,"stride":k,"hazards":bool}; hazards=true only computes (from strconv alone) the
+	// values whose shortest 32-bit text does not survive parsing as float64 and rounding to float32
+	Sweep *sweepSpec `json:"sweep,omitempty"`
+	// Seq: several values through ONE encoder: steps {"op":"encode","t":..,"v":..} or {"op":"reset"}
+	Seq []seqStep `json:"seq,omitempty"`
+}
+
+type sweepSpec struct {
+	From    uint64 `json:"from"`
+	To      uint64 `json:"to"`
+	Stride  uint64 `json:"stride"`
+	Hazards bool   `json:"hazards"`
+}
+
+type sweepObs struct {
+	Count    uint64   `json:"count"`
+	Bad      []string `json:"bad"` // first mismatching bit patterns (hex) with what came back
+	Hazards  []string `json:"hazards,omitempty"`
+	NBad     uint64   `json:"nbad"`
+	Positions int     `json:"positions"`
+}
+
+func runSweep(sp *sweepSpec) sweepObs {
+	var res sweepObs
+	var mu sync.Mutex
+	workers := runtime.NumCPU()
+	stride := sp.Stride
+	if stride == 0 {
+		stride = 1
+	}
+	var wg sync.WaitGroup
+	type holder struct {
+		A int
+		F float32
+		P *float32
+	}
+	res.Positions = 3
+	for w := 0; w < workers; w++ {
+		wg.Add(1)
+		go func(w int) {
+			defer wg.Done()
+			var cnt, nbad uint64
+			var bad, haz []string
+			for bits := sp.From + uint64(w)*stride; bits < sp.To; bits += stride * uint64(workers) {
+				f := math.Float32frombits(uint32(bits))
+				cnt++
+				if sp.Hazards {
+					if f != f || math.IsInf(float64(f), 0) {
+						continue
+					}
+					d, _ := strconv.ParseFloat(strconv.FormatFloat(float64(f), 'g', -1, 32), 64)
+					if float32(d) != f {
+						haz = append(haz, fmt.Sprintf("0x%08x", uint32(bits)))
+					}
+					continue
+				}
+				// top level, struct field and pointer field in one value
+				in := holder{A: 1, F: f, P: &f}
+				data, err := hio.Marshal(in)
+				var out holder
+				if err == nil {
+					err = hio.Unmarshal(data, &out)
+				}
+				ok := err == nil && out.P != nil && math.Float32bits(out.F) == uint32(bits) && math.Float32bits(*out.P) == uint32(bits)
+				if f != f { // NaN: any NaN is fine
+					ok = err == nil && out.F != out.F && out.P != nil && *out.P != *out.P
+				}
+				if !ok {
+					nbad++
+					if len(bad) < 5 {
+						bad = append(bad, fmt.Sprintf("0x%08x -> %08x err=%v", uint32(bits), math.Float32bits(out.F), err))
+					}
+				}
+			}
+			mu.Lock()
+			res.Count += cnt
+			res.NBad += nbad
+			res.Bad = append(res.Bad, bad...)
+			res.Hazards = append(res.Hazards, haz...)
+			mu.Unlock()
+		}(w)
+	}
+	wg.Wait()
+	return res
+}
+
+type seqStep struct {
+	Op string          `json:"op"`
+	T  *TD             `json:"t,omitempty"`
+	V  json.RawMessage `json:"v,omitempty"`
+}
+
+type seqObs struct {
+	Hex      string   `json:"hex,omitempty"`
+	Steps    []string `json:"steps"` // per step: "reset" or the sexp of the value encoded
+	EncErr   string   `json:"enc_err,omitempty"`
+	EncPanic string   `json:"enc_panic,omitempty"`
+	DecErr   string   `json:"dec_err,omitempty"`   // decoding the whole stream back with one decoder (Reset at the same places)
+	DecPanic string   `json:"dec_panic,omitempty"`
+	RT       string   `json:"rt"`
 }
 
 type modeObs struct {
@@ -41,6 +147,8 @@ type ioObs struct {
 	Unordered bool               `json:"unordered,omitempty"`
 	Unsup     string             `json:"unsup,omitempty"`
 	Modes     map[string]modeObs `json:"modes,omitempty"`
+	SeqModes  map[string]seqObs  `json:"seq_modes,omitempty"`
+	Sweep     *sweepObs          `json:"sweep,omitempty"`
 }
 
 func safely(f func()) (p string) {
@@ -63,6 +171,16 @@ func runCase(line []byte, out *json.Encoder) error {
 	}
 	hvlib.Begin(c.ID)
 	obs := ioObs{ID: c.ID, Modes: map[string]modeObs{}}
+	if c.Sweep != nil {
+		hvlib.CaseTimeout = 30 * time.Minute
+		r := runSweep(c.Sweep)
+		obs.Sweep = &r
+		return out.Encode(&obs)
+	}
+	if len(c.Seq) > 0 {
+		runSeq(&c, &obs)
+		return out.Encode(&obs)
+	}
 	t, err := typeOf(c.T)
 	if err != nil {
 		obs.BuildErr = err.Error()
@@ -129,6 +247,83 @@ func runCase(line []byte, out *json.Encoder) error {
 		obs.Modes[m] = mo
 	}
 	return out.Encode(&obs)
+}
+
+// runSeq: values written one after another to one Encoder (Reset where the script says), then read
+// back with one Decoder that resets at the same places.
+func runSeq(c *ioCase, obs *ioObs) {
+	obs.SeqModes = map[string]seqObs{}
+	b := &builder{ptrs: map[int]reflect.Value{}}
+	type item struct {
+		reset bool
+		v     reflect.Value
+	}
+	var items []item
+	var steps []string
+	wk := &walker{ids: map[ptrKey]int{}}
+	for _, st := range c.Seq {
+		if st.Op == "reset" {
+			items = append(items, item{reset: true})
+			steps = append(steps, "reset")
+			continue
+		}
+		t, err := typeOf(st.T)
+		if err != nil {
+			obs.BuildErr = err.Error()
+			return
+		}
+		h := reflect.New(t)
+		if err := b.fill(h.Elem(), st.V); err != nil {
+			obs.BuildErr = err.Error()
+			return
+		}
+		iv := reflect.New(ifaceType).Elem()
+		iv.Set(h.Elem())
+		sx, _, _ := describeWith(wk, iv)
+		items = append(items, item{v: h.Elem()})
+		steps = append(steps, sx)
+	}
+	modes := c.Modes
+	if len(modes) == 0 {
+		modes = []string{"simple", "ref"}
+	}
+	for _, m := range modes {
+		so := seqObs{Steps: steps}
+		enc := new(hio.Encoder).Simple(m == "simple")
+		so.EncPanic = safely(func() {
+			for _, it := range items {
+				if it.reset {
+					enc.Reset()
+				} else if e := enc.Encode(it.v.Interface()); e != nil {
+					so.EncErr = e.Error()
+				}
+			}
+		})
+		if so.EncPanic == "" && so.EncErr == "" {
+			data := enc.Bytes()
+			so.Hex = hex.EncodeToString(data)
+			dec := hio.NewDecoder(data).Simple(m == "simple")
+			so.DecPanic = safely(func() {
+				for i, it := range items {
+					if it.reset {
+						dec.Reset()
+						continue
+					}
+					dst := reflect.New(it.v.Type())
+					dec.Decode(dst.Interface())
+					if dec.Error != nil {
+						so.DecErr = fmt.Sprintf("step %d: %v", i, dec.Error)
+						return
+					}
+					ctx := &eqctx{visited: map[[2]uintptr]bool{}}
+					if r := ctx.eq(it.v, dst.Elem(), fmt.Sprintf("$%d", i)); r != "" && so.RT == "" {
+						so.RT = r
+					}
+				}
+			})
+		}
+		obs.SeqModes[m] = so
+	}
 }
 
 func main() {
